@@ -22,7 +22,8 @@ Record WInv (w : world) : Prop := {
   wi_ccache : Forall good_obj (w_ccache w);
   wi_nfetch : forall wk key n, In (wk, (key, Some n)) (w_nfetch w) -> wf_node n;
   wi_cfetch : forall wk key o, In (wk, (key, Some o)) (w_cfetch w) -> good_obj o;
-  wi_ctl : forall m, w_ctl w = Some m -> MapInv m
+  wi_ctl : forall m, w_ctl w = Some m -> MapInv m;
+  wi_svc : Forall wf_cidr (svc_list (w_svc w))
 }.
 
 Definition wf_op (o : op) : Prop :=
@@ -32,6 +33,12 @@ Definition wf_op (o : op) : Prop :=
   | Construct s1 s2 _ => (forall s, s1 = Some s -> wf_cidr s) /\ (forall s, s2 = Some s -> wf_cidr s)
   | _ => True
   end.
+
+Lemma svc_list_wf s1 s2 : (forall s, s1 = Some s -> wf_cidr s) -> (forall s, s2 = Some s -> wf_cidr s) -> Forall wf_cidr (svc_list (s1, s2)).
+Proof.
+  intros H1 H2. unfold svc_list. cbn [fst snd]. apply Forall_app.
+  split; [destruct s1 as [s|]; [constructor; [apply H1; reflexivity|constructor]|constructor]|destruct s2 as [s|]; [constructor; [apply H2; reflexivity|constructor]|constructor]].
+Qed.
 
 Lemma winv_init : WInv init_world.
 Proof. constructor; cbn; try constructor; try (intros; contradiction); intros; discriminate. Qed.
@@ -88,8 +95,8 @@ Proof. unfold good_obj. intros -> -> ->. tauto. Qed.
 
 Ltac wsplit I :=
   let a := fresh "Wn" in let b := fresh "Wc" in let c := fresh "Wnf" in let d := fresh "Wcf" in
-  let e := fresh "Wnc" in let f := fresh "Wcc" in let g := fresh "Wft" in let h := fresh "Wfc" in let i := fresh "Wm" in
-  destruct I as [a b c d e f g h i]; constructor;
+  let e := fresh "Wnc" in let f := fresh "Wcc" in let g := fresh "Wft" in let h := fresh "Wfc" in let i := fresh "Wm" in let j := fresh "Wsv" in
+  destruct I as [a b c d e f g h i j]; constructor;
   cbn [w_nodes w_ccs w_rv w_nfeed w_cfeed w_ncache w_ccache w_nq w_cq w_ctl w_synced w_nfetch w_cfetch w_svc w_delseen
        set_api set_ctl set_caches set_queues set_fetch set_delseen crashed] in *.
 
@@ -144,14 +151,14 @@ Section WorldInv.
   Variable po : parse_oracle.
   Variable lab : label_oracle.
 
-  Lemma sync_node_patches_wf canp apisame held m cached reread outs m' r fx :
-    MapInv m -> sync_node po lab canp apisame held m cached reread outs = (m', r, fx) ->
+  Lemma sync_node_patches_wf svcs canp apisame held m cached reread outs m' r fx :
+    MapInv m -> sync_node po lab svcs canp apisame held m cached reread outs = (m', r, fx) ->
     forall nm cs o, In (FxPatch nm cs o) fx -> Forall wf_cidr cs.
   Proof.
     unfold sync_node. intros M H nm cs o He.
     destruct cached as [node|]; [|inversion H; subst; destruct He].
     destruct (n_deleting node).
-    { destruct (release_cidr m node) as [m1 r1]. inversion H; subst. destruct He. }
+    { destruct (release_cidr svcs m node) as [m1 r1]. inversion H; subst. destruct He. }
     unfold allocate_or_occupy in H.
     destruct (n_cidrs node) as [|c0 cs0] eqn:En.
     2:{ destruct reread; [destruct (occupy_cidrs po lab m node) as [m1 r1]|]; inversion H; subst; destruct He. }
@@ -172,11 +179,11 @@ Section WorldInv.
     WInv w -> (forall n, cached = Some n -> wf_node n) -> WInv (fst (run_node_sync po lab w cached key outs)).
   Proof.
     intros I Hc. unfold run_node_sync. destruct (w_ctl w) as [m|] eqn:Em; [|exact I].
-    destruct (sync_node po lab (can_patch w key) (api_same w key) (held_cidrs (w_ncache w)) m cached (find_node key (w_ncache w)) outs)
+    destruct (sync_node po lab (svc_list (w_svc w)) (can_patch w key) (api_same w key) (held_cidrs (w_ncache w)) m cached (find_node key (w_ncache w)) outs)
       as [[m' r] fx] eqn:Es.
     cbn [fst]. pose proof (wi_ctl w I m Em) as M.
     apply apply_effects_winv.
-    - apply after_call_winv; [exact I|]. eapply sync_node_inv; eassumption.
+    - apply after_call_winv; [exact I|]. eapply sync_node_inv; [exact M|exact (wi_svc w I)|exact Hc|exact Es].
     - intros n cs o Hin. eapply sync_node_patches_wf; eassumption.
   Qed.
 
@@ -207,8 +214,8 @@ Section WorldInv.
         wsplit I; try assumption; apply Forall_put_node; assumption.
     - cbn [set_caches w_ctl]. destruct (w_ctl w) as [m|] eqn:Em.
       + pose proof (wi_ctl w I m Em) as M.
-        destruct (release_cidr m n) as [m' r] eqn:Er.
-        pose proof (release_cidr_inv _ _ _ _ M He Er) as M'.
+        destruct (release_cidr (svc_list (w_svc w)) m n) as [m' r] eqn:Er.
+        pose proof (release_cidr_inv _ _ _ _ _ M (wi_svc w I) He Er) as M'.
         destruct r; cbn [fst].
         * wsplit I; try assumption; [apply Forall_del_node; assumption|intros m0 E; inversion E; subst; exact M'].
         * wsplit I; try assumption; [apply Forall_del_node; assumption|intros m0 E; inversion E; subst; exact M'].
@@ -377,15 +384,16 @@ Section WorldInv.
       { eapply construct_inv; [exact (wi_ccs w I)| |exact H1|exact H2|exact Ec].
         rewrite Forall_forall. intros n Hn. apply in_map_iff in Hn. destruct Hn as (a & <- & Ha). apply wf_node_view. eapply in_anodes_wf; eassumption. }
       apply apply_effects_winv.
-      + wsplit I; [assumption|assumption|constructor|constructor|constructor|constructor|intros; contradiction|intros; contradiction|].
-        intros m1 E. destruct pan; [discriminate|]. inversion E; subst. exact M.
+      + wsplit I; [assumption|assumption|constructor|constructor|constructor|constructor|intros; contradiction|intros; contradiction| |].
+        * intros m1 E. destruct pan; [discriminate|]. inversion E; subst. exact M.
+        * unfold svc_list. cbn [fst snd]. apply Forall_app. split; [destruct svc1 as [s|]; [constructor; [apply H1; reflexivity|constructor]|constructor]|destruct svc2 as [s|]; [constructor; [apply H2; reflexivity|constructor]|constructor]].
       + intros n cs o Hin. unfold construct in Ec.
         destruct (bootstrap_ccs [] (w_ccs w) outs) as [m1 fx1] eqn:Eb.
         match type of Ec with context [occupy_nodes po lab ?m3 ?ns] => destruct (occupy_nodes po lab m3 ns) as [m4 p4] end.
         inversion Ec; subst. pose proof (bootstrap_no_patch _ _ _ _ _ Eb _ Hin) as Hp. discriminate Hp.
     - (* StartInformers *)
       destruct (w_ctl w) as [m|] eqn:Em; [|exact I]. destruct (w_synced w); [exact I|]. cbn [fst].
-      pose proof I as I0. wsplit I; [assumption|assumption|constructor|constructor| |assumption|assumption|assumption|].
+      pose proof I as I0. wsplit I; [assumption|assumption|constructor|constructor| |assumption|assumption|assumption| |assumption].
       + rewrite Forall_forall. intros n Hn. apply in_map_iff in Hn. destruct Hn as (a & <- & Ha). apply wf_node_view. eapply in_anodes_wf; eassumption.
       + intros m1 E. inversion E; subst. apply Wm. exact Em.
   Qed.
@@ -407,7 +415,7 @@ Section WorldInv.
     forall nm cs out, In (FxPatch nm cs out) (ob_fx ob) -> Forall wf_cidr cs.
   Proof.
     intros I H nm cs out He. unfold run_node_sync in H. destruct (w_ctl w) as [m|] eqn:Em; [|inversion H; subst; destruct He].
-    destruct (sync_node po lab (can_patch w key) (api_same w key) (held_cidrs (w_ncache w)) m cached (find_node key (w_ncache w)) outs)
+    destruct (sync_node po lab (svc_list (w_svc w)) (can_patch w key) (api_same w key) (held_cidrs (w_ncache w)) m cached (find_node key (w_ncache w)) outs)
       as [[m' r] fx] eqn:Es.
     inversion H; subst. cbn [ob_fx] in He. eapply sync_node_patches_wf; [exact (wi_ctl w I m Em)|exact Es|exact He].
   Qed.
